@@ -36,6 +36,25 @@ pub(crate) fn set_table(h: &mut BuzHash, table: &[u32]) {
     h.buzhash_table = table.to_vec();
 }
 
+/// exact field-by-field equality of two hashers with the same window size (<= 8)
+pub(crate) fn same_fields(a: &BuzHash, b: &BuzHash) -> bool {
+    let w = a.window;
+    if b.window != w || a.buf.len() != w || b.buf.len() != w {
+        return false;
+    }
+    let mut ok = a.index == b.index
+        && a.hash_sum == b.hash_sum
+        && a.window_full == b.window_full
+        && a.last_input == b.last_input
+        && a.repeated_input == b.repeated_input;
+    let mut i = 0;
+    while i < w {
+        ok &= a.buf[i] == b.buf[i];
+        i += 1;
+    }
+    ok
+}
+
 /// Closed form: the hash of a window x_0..x_{w-1} (x_{w-1} newest) is
 /// XOR_i rotl(T[x_i], w-1-i).  Does not roll.
 pub(crate) fn closed_form(win: &[u8]) -> u32 {
